@@ -1,7 +1,7 @@
 _P = 'xdoctest.parser:DoctestParser.'
 PROPERTY = {
     'id': 'C13',
-    'extra': ['bounded.c08_lines.run'],
+    'extra': ['bounded.c08_lines.run', 'bounded.c13_groups.run'],
     'contract_modules': ['doctest_example', 'doctest_part', 'parser', 'collect'],
     'functions': [_P + '_label_docsrc_lines#labels', 'xdoctest.parser:_complete_source', 'xdoctest.parser:_complete_source#steps', 'xdoctest.static_analysis:is_balanced_statement',
                   _P + '_package_groups#offsets', _P + '_package_chunk',
@@ -20,11 +20,12 @@ PROPERTY = {
               '_package_groups: the line number handed to each chunk is the number of lines of all earlier chunks (part offsets are true line indices); '
               'text chunks are yielded as their joined lines and never packaged as code',
               'parse: tabs are expanded before the indentation is measured and before labelling (preconditions of the callees)'],
-        'B': ['the real parser on random docstrings whose lines are text / source / want BY CONSTRUCTION (prose, google labels, nested indentation 0/4/8, PS1 and PS2 continuations, bare ... terminators, multi-line wants, a want followed directly by a prompt, tabs): the parts laid end to end reproduce the tab-expanded, commonly de-indented docstring line for line (blank lines at the very end are not compared), every line has the label it was built with, every part records the index of its first line; and every (doctest line + part offset) points at the docstring line that holds the first source line of that part (bounded/c08_lines.py)'],
+        'B': ['the real parser on random docstrings whose lines are text / source / want BY CONSTRUCTION (prose, google labels, nested indentation 0/4/8, PS1 and PS2 continuations, bare ... terminators, multi-line wants, a want followed directly by a prompt, tabs): the parts laid end to end reproduce the tab-expanded, commonly de-indented docstring line for line (blank lines at the very end are not compared), every line has the label it was built with, every part records the index of its first line; and every (doctest line + part offset) points at the docstring line that holds the first source line of that part (bounded/c08_lines.py)',
+              'the real _group_labeled_lines on EVERY label sequence of up to 9 (thorough 12) lines the labeller can produce, distinct line strings, against the statement: the groups laid end to end are the labelled lines once each and in order, text groups hold only text lines, an example group is (non-empty source lines only, empty or want lines only), no source group starts with a continuation line, a run of want lines is the want of exactly one group, nothing is raised (bounded/c13_groups.py)'],
         'T': ['_complete_source (generator driving the tokenizer-based balance check): yields the line and one pair per further line it consumes',
               '_package_chunk (ast-based slicing)', 're.search spans of INDENT_RE (leading spaces of a non-blank line)'],
         'N/A': ['_group_labeled_lines (three passes over lists of (label, line) pairs and nested groups) is not under contract: that the grouping '
-                'is an order-preserving partition is not decided; the HACK_TRIPLE_QUOTE_FIX branch of _complete_source rewrites a swallowed line '
+                'is an order-preserving partition is decided only up to the bound of the stand-in above, not proved; the HACK_TRIPLE_QUOTE_FIX branch of _complete_source rewrites a swallowed line '
                 '(noted in section 7 as F10; it lies inside the assumed contract)'],
     },
     'explanation': 'C13 (partial): the labelling state machine equals the documented transition rule and labels every line once; offsets are sums of chunk sizes.',
